@@ -22,6 +22,7 @@ pub fn generate(driver: &str, seed: u64, count: u64, opts: &Opts) -> Vec<History
             "chunkedsoup" => out.extend(chunkedsoup(&mut rng, i, opts)),
             "captured" => out.extend(captured(&mut rng, i, opts)),
             "recsoup" => out.extend(recsoup(&mut rng, i, opts)),
+            "bigchunk" => out.extend(bigchunk(&mut rng, i, opts)),
             _ => panic!("unknown driver {}", driver),
         }
     }
@@ -513,6 +514,32 @@ pub fn chunkedsoup(rng: &mut Rng, i: u64, opts: &Opts) -> Vec<History> {
             prev = b;
         }
         out.push(History { id: format!("{}-{}", sid, style), sid: sid.clone(), cmp: "C02".into(), c, l, scr: true, utf8, evs, setup: vec![], dispsetup: false });
+    }
+    out
+}
+
+/// one feed() call of several thousand bytes (around the sizes of internal scratch buffers), with a sequence pending
+/// from the previous call, an ill-formed byte at the start, or a sequence left pending at the end (C11, C02, C01)
+pub fn bigchunk(rng: &mut Rng, i: u64, _opts: &Opts) -> Vec<History> {
+    let sizes = [4097usize, 4200, 1025, 4096, 4095, 2048, 1024, 4094, 4100, 4093, 1020, 4090];
+    let n = sizes[(i as usize) % sizes.len()];
+    let ascii = |k: usize, rng: &mut Rng| -> Vec<u8> { (0..k).map(|j| if j % 61 == 60 { b' ' } else { b'a' + rng.below(26) as u8 }).collect() };
+    let mut out = Vec::new();
+    let mk = |id: String, chunks: Vec<Vec<u8>>| History {
+        id, sid: String::new(), cmp: String::new(), c: 4, l: 3, scr: false, utf8: true,
+        evs: chunks.into_iter().map(|b| HEv { b, ..hev("feedb", vec![], vec![], false, "bytes") }).collect(),
+        setup: vec![], dispsetup: false,
+    };
+    let a = ascii(n, rng);
+    out.push(mk(format!("big-{}-pend", i), vec![vec![0xe2], [&[0x82u8, 0xac][..], &a[..]].concat()]));
+    match rng.below(3) {
+        0 => out.push(mk(format!("big-{}-ill", i), vec![[&[0x80u8][..], &a[..]].concat()])),
+        1 => out.push(mk(format!("big-{}-tail", i), vec![[&a[..], &[0xe2u8, 0x82][..]].concat(), vec![0xac, b'z']])),
+        _ => {
+            let mut multi = Vec::new();
+            for j in 0..n / 3 { multi.extend_from_slice(if j % 7 == 3 { &[0xf0, 0x9f, 0x98, 0x80][..] } else { &[0xc3, 0xa9][..] }); }
+            out.push(mk(format!("big-{}-multi", i), vec![vec![0xc3], [&[0xa9u8][..], &multi[..], &[0xe6u8, 0x97][..]].concat(), vec![0xa5]]));
+        }
     }
     out
 }
